@@ -105,6 +105,19 @@ const PIECES: &[(&str, &str)] = &[
       (alias core export $ni# \"g\" (core global $ng#))
       (alias core export $ni# \"t\" (core table $nt#))
       (alias core export $ni# \"tg\" (core tag $ntg#))"),
+    ("async-builtins",
+     "(type $fut# (future))
+      (type $str# (stream))
+      (core func $fnew# (canon future.new $fut#))
+      (core func $frd# (canon future.read $fut#))
+      (core func $fwr# (canon future.write $fut#))
+      (core func $fcr# (canon future.cancel-read $fut#))
+      (core func $fcw# (canon future.cancel-write $fut#))
+      (core func $fdr# (canon future.drop-readable $fut#))
+      (core func $fdw# (canon future.drop-writable $fut#))
+      (core func $snew# (canon stream.new $str#))
+      (core func $scr# (canon stream.cancel-read $str#))
+      (core func $scw# (canon stream.cancel-write $str#))"),
     ("lower",
      "(import \"low#\" (func $lf# (param \"x\" u32)))
       (core func $lowered# (canon lower (func $lf#)))
